@@ -30,4 +30,5 @@ def main(tier, replay=None):
     res.assumptions = ["reference receiver seq/ref_smtp.h implements RFC 5321 4.5.2",
                        "bare CR, CR LF and LF each end a line of the stored message (fixed by tests/unittest_qmail-remote.c)"]
     res.require_nonzero("evaluations", "distinct_nontrivial", "completed", "aborted", "short_write_runs", "messages_decoded_from_wire")
+    lib_conformance(res, rd, src, ['io', 'bytes'], tier, asan=True)
     return res.finish()
